@@ -123,7 +123,7 @@ def replay_views(s, model):
 
 
 def run(chk):
-    build, oracle, tables = emucheck.setup(chk, extra_units=("guards",))
+    build, oracle, tables = emucheck.setup(chk, extra_units=("guards", "taskev"))
     chk.assumptions = ["type ids/labels and task ids are fresh per process; thread events as in C04",
                        "Nanos6 nests a task over another one inside a subsystem region (as the runtime does); pushing the task-body "
                        "subsystem twice in a row is refused by its channel and is outside the property"]
